@@ -563,17 +563,13 @@ def vite(c, a, b):
     if isinstance(c, bool):
         return a if c else b
     ct = tobool(c)
-    cs = z3.simplify(ct) if z3.is_expr(ct) else ct
-    if z3.is_true(cs):
-        return a
-    if z3.is_false(cs):
-        return b
     if not is_sym(a) and not is_sym(b) and a is b:
         return a
     if a is VBottom:
         return b
     if b is VBottom:
         return a
+
     a, b = lift(a), lift(b)
     if isinstance(a, VInt) and isinstance(b, VInt):
         return VInt(z3.If(ct, a.t, b.t))
@@ -604,6 +600,12 @@ def vite(c, a, b):
         return VOpt(z3.If(ct, ao.isnone, bo.isnone), val)
     if isinstance(a, VRec) and isinstance(b, VRec) and set(a.fields) == set(b.fields):
         return VRec(a.cls, {k: vite(c, a.fields[k], b.fields[k]) for k in a.fields})
+    # values of different kinds (e.g. an int stored into a list of strings): only when the condition is decided
+    cs = z3.simplify(ct) if z3.is_expr(ct) else ct
+    if z3.is_true(cs):
+        return a
+    if z3.is_false(cs):
+        return b
     raise Unsupported("ite on %r and %r" % (a, b))
 
 
